@@ -106,7 +106,7 @@ impl Monitor for M {
 
     fn floors(&self, tier: Tier) -> Vec<(&'static str, u64)> {
         let q = tier == Tier::Quick;
-        vec![
+        let mut v = vec![
             // grouping containers: every class of event the model distinguishes must have occurred
             ("gm_exhaustive_histories", if q { 10_000_000 } else { 100_000_000 }),
             ("gm_ops_checked_hashmap", 100_000_000),
@@ -143,7 +143,20 @@ impl Monitor for M {
             ("tags_rounds_truly_interleaved", 20),
             ("tags_distinct_ownership_interleavings", 20),
             ("tags_static_reads", 100),
-        ]
+        ];
+        // The Miri / TSan stages run before this binary when it is started through ./check
+        // (which then sets VERIF_STAGE_DIR); a stage that produced nothing must not pass.
+        let staged = std::env::var("VERIF_STAGE_DIR").map(|s| !s.is_empty()).unwrap_or(false);
+        if staged {
+            v.push(("miri:tag_seeds_clean", if q { 8 } else { 64 }));
+            v.push(("miri:distinct_ownership_interleavings", if q { 8 } else { 64 }));
+            v.push(("miri:container_runs_clean", 1));
+            if !q {
+                v.push(("tsan:runs_clean", 5));
+                v.push(("tsan:tags_created", 5_000_000));
+            }
+        }
+        v
     }
 
     fn calibrate(&self, obs: &mut Obs) {
